@@ -185,7 +185,38 @@ enum Seen {
     Other(String),
 }
 
+thread_local! {
+    /// Some(dir): projects are written into this directory, which is the current directory of the
+    /// (child) process, and darklua works on the real file system
+    static FS_SANDBOX: std::cell::RefCell<Option<std::path::PathBuf>> = const { std::cell::RefCell::new(None) };
+}
+
 fn write_project(files: &BTreeMap<String, String>, config_path: &str, config_text: &str) -> Resources {
+    if let Some(dir) = FS_SANDBOX.with(|d| d.borrow().clone()) {
+        // wipe the sandbox (we are inside it), then write with relative paths
+        if let Ok(rd) = std::fs::read_dir(&dir) {
+            for e in rd.flatten() {
+                let p = e.path();
+                if p.is_dir() {
+                    let _ = std::fs::remove_dir_all(&p);
+                } else {
+                    let _ = std::fs::remove_file(&p);
+                }
+            }
+        }
+        let put = |p: &str, c: &str| {
+            let f = dir.join(p);
+            if let Some(parent) = f.parent() {
+                std::fs::create_dir_all(parent).expect("sandbox mkdir");
+            }
+            std::fs::write(&f, c).expect("sandbox write");
+        };
+        for (p, c) in files {
+            put(p, c);
+        }
+        put(config_path, config_text);
+        return Resources::from_file_system();
+    }
     let resources = Resources::from_memory();
     for (p, c) in files {
         resources.write(p, c).expect("memory write");
@@ -1048,9 +1079,57 @@ fn run(ctx: &RunCtx) {
         st.class("random_case");
         evaluate(&case, st)
     });
+    // the same random cases on the real file system (is_file / is_directory / read errors differ
+    // from the in-memory resources): each shard is a child process whose current directory is its
+    // own sandbox
+    ctx.isolate("filesystem");
+    let base = ctx.verif_dir.join(".work/c15fs");
+    let n_fs = ctx.tier.pick(1_600, 40_000);
+    ctx.search("filesystem", n_fs, 64, |tape, st| {
+        let dir = base.join(format!("p{}", std::process::id()));
+        if FS_SANDBOX.with(|d| d.borrow().is_none()) {
+            let _ = std::fs::remove_dir_all(&dir);
+            if std::fs::create_dir_all(&dir).is_err() || std::env::set_current_dir(&dir).is_err() {
+                return CaseResult::Discard("cannot enter the sandbox directory");
+            }
+            FS_SANDBOX.with(|d| *d.borrow_mut() = Some(dir.clone()));
+        }
+        let mut t = Tape::new(tape);
+        let case = gen_random(&mut t, &avoid);
+        st.class("file_system_case");
+        match evaluate(&case, st) {
+            CaseResult::Fail(mut f) => {
+                f.replay["file_system"] = json!(true);
+                CaseResult::Fail(f)
+            }
+            r => r,
+        }
+    });
+    if ctx.child.is_some() {
+        // leave and remove this process's own sandbox
+        if let Some(dir) = FS_SANDBOX.with(|d| d.borrow_mut().take()) {
+            let _ = std::env::set_current_dir(&ctx.verif_dir);
+            let _ = std::fs::remove_dir_all(dir);
+        }
+    } else {
+        let _ = std::fs::remove_dir_all(&base);
+    }
 }
 
 fn replay(v: &Value) -> Result<(), String> {
     let case = Case::from_json(v).ok_or("malformed C15 replay file")?;
+    if v.get("file_system").and_then(|b| b.as_bool()) == Some(true) {
+        let home = std::env::current_dir().map_err(|e| e.to_string())?;
+        let dir = std::path::PathBuf::from(std::env::var("VERIF_DIR").unwrap_or_else(|_| "/verif".into())).join(format!(".work/c15fs-replay/p{}", std::process::id()));
+        let _ = std::fs::remove_dir_all(&dir);
+        std::fs::create_dir_all(&dir).map_err(|e| e.to_string())?;
+        std::env::set_current_dir(&dir).map_err(|e| e.to_string())?;
+        FS_SANDBOX.with(|d| *d.borrow_mut() = Some(dir.clone()));
+        let r = check(&case).map(|_| ());
+        FS_SANDBOX.with(|d| *d.borrow_mut() = None);
+        let _ = std::env::set_current_dir(home);
+        let _ = std::fs::remove_dir_all(&dir);
+        return r;
+    }
     check(&case).map(|_| ())
 }
